@@ -2,7 +2,7 @@
 from datetime import timedelta
 
 from .. import hooks
-from ..gen import big_n, canon, exact, mk_event, rand_grid, td_us
+from ..gen import big_n, canon, exact, maybe_zone, mk_event, rand_grid, td_us
 from ..model import norm, pairwise_disjoint, subset, subtract
 from . import _tx
 from ._tx import exc_viol, is_event_list, iv, snap, tmod, unmodified
@@ -99,6 +99,7 @@ def gen_case(rng, ctx):
     base, unit = rand_grid(rng)
     if unit > 10**6:
         unit = 10**6
+    base, unit, zone = maybe_zone(rng, base, unit)
     pulse_ms = rng.choice([0, 1, 2, 1000, 3000, 5000, 5000, 10000, rng.randrange(0, 10001)])
     pu = pulse_ms * 1000
     n = big_n(rng, rng.randrange(0, 13))
@@ -110,7 +111,7 @@ def gen_case(rng, ctx):
         dur = rng.choice([0, 0, 1, 1, 2, 3, 7]) * unit
         if not (sticky and rng.random() < 0.6):
             lab = rng.choice(_DATA)
-        specs.append(dict(ts=pos, dur=dur, data=lab))
+        specs.append(dict(ts=pos, dur=dur, data=lab, **({"zone": zone} if zone and rng.random() < 0.7 else {})))
         r = rng.random()
         if r < 0.15:
             gap = 0
